@@ -12,6 +12,7 @@ import (
 	"os"
 	"os/exec"
 	"path/filepath"
+	"strconv"
 	"strings"
 	"sync"
 	"syscall"
@@ -291,6 +292,13 @@ func c14Child() {
 	if len(c.Lines) > 0 {
 		if cn := dial(plainAddr); cn != nil {
 			for _, l := range c.Lines {
+				// "@NOW+k@" / "@NOW-k@": a timestamp relative to the moment the line is sent (aggregation buckets that are due / not yet due)
+				if i := strings.Index(l, "@NOW"); i >= 0 {
+					if j := strings.Index(l[i+1:], "@"); j >= 0 {
+						off, _ := strconv.ParseInt(l[i+4:i+1+j], 10, 64)
+						l = l[:i] + strconv.FormatInt(time.Now().Unix()+off, 10) + l[i+2+j:]
+					}
+				}
 				cn.Write([]byte(l + "\n"))
 			}
 			cn.Close()
